@@ -315,6 +315,32 @@ def run(chk):
                 chk.violation('error_of_a_call_is_its_own', {'scenario': sc_}, {'op': opi_, 'raised': exc_, 'same_situation_elsewhere_raises': {'type': ref[0], 'args': ref[1]}},
                               'a call made while a lazy call is open raises the documented error, not one left over from earlier operations',
                               input_class='stale_error_surfaces')
+    # a call that fails after it has claimed the pool but before its own bookkeeping exists: the kept-alive workers have to be
+    # replaced (a pool setting changed) and their deferred worker_exit raises while they are being retired — every later call
+    # behaves as on a fresh pool
+    ds = []
+    for _ in range(24 if chk.tier == 'quick' else 300):
+        nj = rng.choice([1, 2, 3])
+        what = rng.choice(['pass_worker_id', 'shared_objects', 'use_worker_state'])
+        later = [{'op': rng.choice(['map', 'map_unordered', 'imap', 'imap_unordered']), 'n': rng.randint(2, 8), 'chunk_size': rng.choice([1, 2, 3]), 'elem': rng.choice(['scalar', 'tuple'])}
+                 for _k in range(rng.randint(1, 3))]
+        if rng.random() < .5:
+            later.append({'op': 'apply_batch', 'tasks': [{'idx': i} for i in range(rng.randint(1, 3))], 'dur': {'kind': 'map', 'map': {}, 'default': 0.01}, 'get_timeout': 30})
+        ds.append({'seed': rng.randint(0, 10 ** 6), 'pool': {'n_jobs': nj, 'start_method': rng.choice(['fork', 'threading']), 'keep_alive': True}, 'same_func': False, 'relax_shape': True,
+                   'ops': [{'op': 'map', 'n': rng.randint(2, 6), 'chunk_size': 1, 'exit': True, 'fail': {'exit': 'all', 'exc': 'ValueError'}},
+                           {'op': 'set', 'what': what, 'value': True},
+                           {'op': rng.choice(['map', 'imap_unordered']), 'n': rng.randint(2, 6), 'chunk_size': 1}] + later})
+    dobs = run_scenarios(chk, 'a call that fails while the retired workers run their deferred worker_exit, then more calls (DetSim)', ds, {'C01', 'C02', 'C03'},
+                         nontrivial=lambda sc, o: True, dist=lambda sc, o: {'outcomes': str([x.get('outcome') for x in o.get('ops', [])][:3]), 'start': sc['pool']['start_method']})
+    for sc, o in zip(ds, dobs):
+        if o.get('harness_error') or o.get('stuck'):
+            continue
+        for opi in range(3, len(sc['ops'])):
+            oo = o['ops'][opi] if opi < len(o.get('ops', [])) else {}
+            if oo.get('outcome') != 'ok':
+                chk.violation('later_calls_behave_as_on_a_fresh_pool', {'scenario': sc}, {'op': opi, 'outcome': oo.get('outcome'), 'raised': oo.get('exc')},
+                              'after a failed call later calls start fresh workers and succeed', input_class='stuck_after_failed_start')
+                break
     ks = kill_histories(rng, 120 if chk.tier == 'quick' else 2000)
     kobs = run_scenarios(chk, 'histories in which a worker is killed inside a task, then the pool is used again (DetSim)', ks, {'C06', 'C01', 'C02'},
                          nontrivial=lambda sc, o: bool(o.get('injected')),
